@@ -51,17 +51,27 @@ Proof.
         try (exfalso; destruct W2 as [W|[W|[[W W']|[[W W']|[W W']]]]]; discriminate).
 Qed.
 
-Lemma cast_vec_kind ta l :
-  Forall (comp_ok ta) l -> map (cast ta) (map (cast (vec_kind l)) l) = map (cast ta) l.
-Proof.
-  intros HF. rewrite map_map. apply map_ext_in. intros c Hc.
-  rewrite Forall_forall in HF. destruct (HF _ Hc) as [tv [K W]].
-  change (vec_kind l) with (fk TBool l).
-  destruct (fk_ge TBool l) as [_ G]. apply cast_cast with (tv := tv); auto.
-  - eapply G; eauto.
-  - destruct (fk_from TBool l) as [E|[c' [H1 H2]]]; [now left|]. right.
-    destruct (HF _ H1) as [tv' [K' W']]. congruence.
-Qed.
+Lemma cast_store t c : cast t (store t c) = store t c.
+Proof. destruct t, c; reflexivity. Qed.
+
+Lemma map_cast_store t l : map (cast t) (map (store t) l) = map (store t) l.
+Proof. rewrite map_map. apply map_ext. intros c. apply cast_store. Qed.
+
+(* what an accepted write leaves to be read: numpy converts to the attribute's dtype (strings cut to the fixed width);
+   the scalar of a sparse attribute is kept as the python object it is *)
+Definition written (at_ : attr) (isv : bool) (l : list comp) : list comp :=
+  match ast at_ with
+  | Sparse _ => if isv then map (store (aty at_)) l else map (cast (aty at_)) l
+  | Dense _ _ _ => map (store (aty at_)) l
+  end.
+
+(* what an entry that was never written reads *)
+Definition unset_read (h : heap) (a : attr) : list comp :=
+  match ast a with
+  | Sparse _ => if asz a >? 1 then default_row h a
+                else match adef a with DScal c => [cast (aty a) c] | DCell _ => default_row h a end
+  | Dense _ _ _ => default_row h a
+  end.
 
 (* ------------------------------------------------------------------ reads do not depend on heap growth *)
 Lemma rd_attr_app n h x a j : attr_ok n h a -> rd_attr (h ++ [x]) a j = rd_attr h a j.
@@ -95,7 +105,7 @@ Lemma set_laws s a k v s' :
   exists at_ isv l,
     lookup a (attrs s) = Some at_ /\
     sparse_validate (aty at_) (asz at_) v = inr (isv, l) /\
-    rd s' a k = Some (map (cast (aty at_)) l) /\
+    rd s' a k = Some (written at_ isv l) /\
     (forall b j, (b, j) <> (a, k) -> rd s' b j = rd s b j) /\
     sn s' = sn s.
 Proof.
@@ -114,17 +124,17 @@ Proof.
     destruct isv; inversion E; subst s'; clear E.
     + split; [|split; [|reflexivity]].
       * unfold rd. simpl. rewrite lookup_put_same. unfold rd_attr. simpl. rewrite lookup_upsert, Z.eqb_refl.
-        simpl. rewrite nth_error_app_new. simpl. f_equal. now apply cast_vec_kind.
+        simpl. rewrite nth_error_app_new. simpl. unfold written. rewrite St. f_equal. apply map_cast_store.
       * intros b j N. unfold rd. simpl. rewrite lookup_put. destruct (b =? a) eqn:Eb.
         -- apply Z.eqb_eq in Eb. subst b. rewrite La. assert (j <> k) by congruence.
-           transitivity (rd_attr (hp t ++ [mkcell (vec_kind l) (map (cast (vec_kind l)) l)]) at_ j).
+           transitivity (rd_attr (hp t ++ [mkcell (aty at_) (map (store (aty at_)) l)]) at_ j).
            ++ unfold rd_attr. simpl. rewrite St. rewrite lookup_upsert.
               destruct (j =? k) eqn:Ej; [lia|]. reflexivity.
            ++ eapply rd_attr_app; exact Hok.
         -- destruct (lookup b (attrs t)) as [bt|] eqn:Lb; [|reflexivity]. eapply rd_attr_app. eapply H1; eassumption.
     + split; [|split; [|reflexivity]].
       * unfold rd. simpl. rewrite lookup_put_same. unfold rd_attr. simpl. rewrite lookup_upsert, Z.eqb_refl.
-        simpl. destruct l as [|c [|c' r]]; simpl length in V2; try (exfalso; lia). reflexivity.
+        simpl. unfold written. rewrite St. destruct l as [|c [|c' r]]; simpl length in V2; try (exfalso; lia). reflexivity.
       * intros b j N. unfold rd. simpl. rewrite lookup_put. destruct (b =? a) eqn:Eb.
         -- apply Z.eqb_eq in Eb. subst b. rewrite La. assert (j <> k) by congruence.
            unfold rd_attr. simpl. rewrite St. rewrite lookup_upsert.
@@ -142,7 +152,7 @@ Proof.
     inversion E; subst s'; clear E. split; [|split; [|reflexivity]].
     + unfold rd. simpl. rewrite lookup_put_same. unfold rd_attr. simpl. rewrite O.
       unfold znth_row. rewrite nth_upd_same by lia.
-      unfold dense_get_scalar. destruct isv.
+      unfold dense_get_scalar, written. rewrite St. destruct isv.
       * assert (asz at_ =? 1 = false) by lia. rewrite H. reflexivity.
       * assert (asz at_ = 1) by lia. rewrite H. simpl.
         destruct l as [|c [|c' r]]; simpl length in V2; try (exfalso; lia). reflexivity.
@@ -156,11 +166,10 @@ Qed.
 
 (* ------------------------------------------------------------------ what a read returns, under the invariant *)
 Lemma rd_sparse_unset n h a m k :
-  attr_ok n h a -> ast a = Sparse m -> lookup k m = None -> rd_attr h a k = Some (default_row h a).
+  attr_ok n h a -> ast a = Sparse m -> lookup k m = None -> rd_attr h a k = Some (unset_read h a).
 Proof.
-  intros [A1 [A2 A3]] St L. unfold rd_attr. rewrite St, L. unfold sparse_get_fresh.
-  destruct (asz a >? 1) eqn:E; [reflexivity|]. assert (asz a = 1) by lia.
-  destruct (adef a) as [c|id] eqn:D; [|reflexivity]. unfold default_row. rewrite D, H. reflexivity.
+  intros [A1 [A2 A3]] St L. unfold rd_attr, unset_read. rewrite St, L. unfold sparse_get_fresh.
+  destruct (asz a >? 1) eqn:E; [reflexivity|]. destruct (adef a) as [c|id] eqn:D; reflexivity.
 Qed.
 
 Lemma rd_sparse_set n h a m k sv :
@@ -232,13 +241,13 @@ Proof.
       * inversion E; subst. simpl in R2. inversion R2; subst. assert (asz at_ >? 1 = false) by lia. rewrite H. repeat split; auto.
       * destruct A3 as [L [c [Hc Hr]]]. rewrite Hc in E. inversion E; subst. simpl in R2. rewrite Hc in R2.
         inversion R2; subst. assert (asz at_ >? 1 = true) by lia. rewrite H. repeat split; auto.
-    + rewrite (rd_sparse_unset _ _ _ _ _ Hok St Lk). unfold sparse_get_fresh in E.
+    + rewrite (rd_sparse_unset _ _ _ _ _ Hok St Lk). unfold sparse_get_fresh in E. unfold unset_read. rewrite St.
       destruct (asz at_ >? 1) eqn:F.
       * inversion E; subst. split; [reflexivity|]. split; [|simpl; repeat split; auto; apply hpres_app].
         intros b j. unfold rd. simpl. destruct (lookup b (attrs t)) as [bt|] eqn:Lb; [|reflexivity].
         eapply rd_attr_app. eapply H1; eassumption.
       * assert (asz at_ = 1) by lia. destruct (adef at_) as [c|id] eqn:D.
-        -- inversion E; subst. unfold default_row. rewrite D, H. repeat split; auto.
+        -- inversion E; subst. repeat split; auto.
         -- exfalso. destruct A2 as [L _]. lia.
   - destruct (dense_oob k ne) eqn:O.
     + inversion E; subst. unfold rd_attr. rewrite St, O. repeat split; auto.
@@ -292,11 +301,14 @@ Definition default_of (t : ty) (d : option comp) : comp := match d with Some c =
 Lemma map_repeat {A B} (f : A -> B) x n : map f (repeat x n) = repeat (f x) n.
 Proof. induction n; simpl; congruence. Qed.
 
+Lemma unset_read_dense h a ne st rows : ast a = Dense ne st rows -> unset_read h a = default_row h a.
+Proof. intros St. unfold unset_read. now rewrite St. Qed.
+
 Lemma create_laws s a t k dense d s' :
   inv s -> 1 <= k -> step s (Create a t k dense d) = (s', OOk) ->
   exists at', lookup a (attrs s') = Some at' /\ aty at' = t /\ asz at' = k /\
-              default_row (hp s') at' = repeat (cast t (default_of t d)) (Z.to_nat k) /\
-              (forall j, 0 <= j < sn s -> rd s' a j = Some (default_row (hp s') at')) /\
+              default_row (hp s') at' = repeat (store t (default_of t d)) (Z.to_nat k) /\
+              (forall j, 0 <= j < sn s -> rd s' a j = Some (unset_read (hp s') at')) /\
               (forall b j, b <> a -> rd s' b j = rd s b j) /\ sn s' = sn s.
 Proof.
   intros Hi Hk E. pose proof (inv_step s (Create a t k dense d) Hi Hk) as Hi'. rewrite E in Hi'. simpl in Hi'.
@@ -315,38 +327,34 @@ Proof.
     - destruct (kind_of c) as [td|]; [|discriminate]. destruct (default_type_bad td t); [discriminate|]. left. eauto.
     - destruct (k =? 1) eqn:K1; [right; left|right; right]; repeat split; auto; lia. }
   pose proof Hi' as [_ [I1 _]].
-  destruct V as [[c [Ed V]]|[[Ed [K1 V]]|[Ed [K1 V]]]]; rewrite V in E; inversion E; subst s'; clear E; simpl in *;
-    pose proof (I1 a _ (lookup_put_same _ _ _)) as Ok; eexists; (split; [apply lookup_put_same|]); simpl;
-      (split; [reflexivity|]); (split; [reflexivity|]).
-  - subst d. split; [reflexivity|]. split; [|split; [|reflexivity]].
-    + intros j Hj. unfold rd. simpl. rewrite lookup_put_same. unfold new_storage in *. destruct dense.
-      * erewrite rd_dense; [|exact Ok|reflexivity|lia]. unfold znth_row, dense_init_rows, create_dense_n_elem.
-        rewrite nth_repeat_in by lia. reflexivity.
-      * erewrite rd_sparse_unset; [|exact Ok|reflexivity|reflexivity]. reflexivity.
-    + intros b j N. unfold rd. simpl. now rewrite lookup_put_other.
-  - subst d k. split; [reflexivity|]. split; [|split; [|reflexivity]].
-    + intros j Hj. unfold rd. simpl. rewrite lookup_put_same. unfold new_storage in *. destruct dense.
-      * erewrite rd_dense; [|exact Ok|reflexivity|lia]. unfold znth_row, dense_init_rows, create_dense_n_elem.
-        rewrite nth_repeat_in by lia. reflexivity.
-      * erewrite rd_sparse_unset; [|exact Ok|reflexivity|reflexivity]. reflexivity.
-    + intros b j N. unfold rd. simpl. now rewrite lookup_put_other.
+  assert (RD : forall h' df, inv (with_attrs (with_heap u h') (put a (mkattr t k df (new_storage h' t k df dense (sn u) (clock u))) (attrs u))) ->
+               forall j, 0 <= j < sn u ->
+               rd (with_attrs (with_heap u h') (put a (mkattr t k df (new_storage h' t k df dense (sn u) (clock u))) (attrs u))) a j
+               = Some (unset_read h' (mkattr t k df (new_storage h' t k df dense (sn u) (clock u))))).
+  { intros h' df [_ [J1 _]] j Hj. simpl in J1. pose proof (J1 a _ (lookup_put_same _ _ _)) as Ok.
+    unfold rd. simpl. rewrite lookup_put_same. unfold new_storage in *. destruct dense.
+    - erewrite rd_dense; [|exact Ok|reflexivity|lia]. unfold znth_row, dense_init_rows, create_dense_n_elem.
+      rewrite nth_repeat_in by lia. reflexivity.
+    - erewrite rd_sparse_unset; [|exact Ok|reflexivity|reflexivity]. reflexivity. }
+  destruct V as [[c [Ed V]]|[[Ed [K1 V]]|[Ed [K1 V]]]]; rewrite V in E; inversion E; subst s'; clear E;
+    eexists; (split; [simpl; apply lookup_put_same|]); (split; [reflexivity|]); (split; [reflexivity|]).
+  - subst d. split; [reflexivity|]. split; [apply RD; exact Hi'|]. split; [|reflexivity].
+    intros b j N. unfold rd. simpl. now rewrite lookup_put_other.
+  - subst d k. split; [reflexivity|]. split; [apply RD; exact Hi'|]. split; [|reflexivity].
+    intros b j N. unfold rd. simpl. now rewrite lookup_put_other.
   - subst d. split.
     { unfold default_row. simpl. rewrite nth_error_app_new. simpl. apply map_repeat. }
-    split; [|split; [|reflexivity]].
-    + intros j Hj. unfold rd. simpl. rewrite lookup_put_same. unfold new_storage in *. destruct dense.
-      * erewrite rd_dense; [|exact Ok|reflexivity|lia]. unfold znth_row, dense_init_rows, create_dense_n_elem.
-        rewrite nth_repeat_in by lia. reflexivity.
-      * erewrite rd_sparse_unset; [|exact Ok|reflexivity|reflexivity]. reflexivity.
-    + intros b j N. unfold rd. simpl. rewrite lookup_put_other by exact N.
-      destruct (lookup b (attrs u)) as [bt|] eqn:Lb; [|reflexivity]. eapply rd_attr_app.
-      destruct Hi as [_ [H1 _]]. eapply H1; eassumption.
+    split; [apply RD; exact Hi'|]. split; [|reflexivity].
+    intros b j N. unfold rd. simpl. rewrite lookup_put_other by exact N.
+    destruct (lookup b (attrs u)) as [bt|] eqn:Lb; [|reflexivity]. eapply rd_attr_app.
+    destruct Hi as [_ [H1 _]]. eapply H1; eassumption.
 Qed.
 
 Lemma clear_laws s a s' :
   inv s -> step s (ClearAttr a) = (s', OOk) ->
   exists at_ at', lookup a (attrs s) = Some at_ /\ lookup a (attrs s') = Some at' /\
                   default_row (hp s') at' = default_row (hp s) at_ /\
-                  (forall j, 0 <= j < sn s -> rd s' a j = Some (default_row (hp s) at_)) /\
+                  (forall j, 0 <= j < sn s -> rd s' a j = Some (unset_read (hp s) at_)) /\
                   (forall b j, b <> a -> rd s' b j = rd s b j) /\ sn s' = sn s.
 Proof.
   intros Hi E. pose proof (inv_step s (ClearAttr a) Hi I) as Hi'. rewrite E in Hi'. simpl in Hi'.
@@ -362,12 +370,12 @@ Proof.
     pose proof (I1 a _ (lookup_put_same _ _ _)) as Ok; exists at_; eexists; (split; [reflexivity|]);
       (split; [apply lookup_put_same|]); (split; [reflexivity|]); (split; [|split; [|reflexivity]]).
   - intros j Hj. unfold rd. simpl. rewrite lookup_put_same.
-    erewrite rd_sparse_unset; [|exact Ok|reflexivity|reflexivity]. reflexivity.
+    erewrite rd_sparse_unset; [|exact Ok|reflexivity|reflexivity]. unfold unset_read. simpl. rewrite St. reflexivity.
   - intros b j N. unfold rd. simpl. now rewrite lookup_put_other.
   - intros j Hj. unfold rd. simpl. rewrite lookup_put_same.
     pose proof Ok as [_ [_ B]]. simpl in B. destruct B as [B1 _].
     erewrite rd_dense; [|exact Ok|reflexivity|lia]. unfold znth_row, dense_clear_rows.
-    rewrite nth_repeat_in by lia. reflexivity.
+    rewrite nth_repeat_in by lia. unfold unset_read. now rewrite St.
   - intros b j N. unfold rd. simpl. now rewrite lookup_put_other.
 Qed.
 
@@ -379,7 +387,7 @@ Lemma grow_laws s added amount a at_ :
   (forall j, 0 <= j < sn s -> rd s' a j = rd s a j) /\
   (forall j, sn s <= j < sn s' ->
              match ast at_ with Sparse m => lookup j m = None | Dense _ _ _ => True end ->
-             rd s' a j = Some (default_row (hp s) at_)).
+             rd s' a j = Some (unset_read (hp s) at_)).
 Proof.
   intros Hi Ha Eam La s'. pose proof (inv_grow s added amount Hi Ha Eam) as Hi'. fold s' in Hi'.
   subst amount. unfold grow in s'. simpl in s'. subst s'. simpl.
@@ -395,5 +403,5 @@ Proof.
     + intros j Hj. erewrite rd_dense; [|exact Ok'|reflexivity|lia]. erewrite rd_dense; [|exact Ok|exact St|lia].
       unfold znth_row. rewrite app_nth1 by lia. reflexivity.
     + intros j Hj _. erewrite rd_dense; [|exact Ok'|reflexivity|lia].
-      unfold znth_row, dense_expand_rows. rewrite nth_app_repeat_new by lia. reflexivity.
+      unfold znth_row, dense_expand_rows. rewrite nth_app_repeat_new by lia. unfold unset_read. now rewrite St.
 Qed.
